@@ -161,6 +161,27 @@ def main(run):
                                   f"{(mean, var, math.sqrt(var))!r}", {"k": ki, "k_type": kname, "updates": m, "last_values": vals[-ki - 2:]})
                     break
         run.nontriv(("c11-k-type", kname, ki))
+    # ---- EVERY window size 1..130 (thorough ..400) at EVERY fill count 1..k and a few counts beyond: thin slices in (k, n)
+    kmax = 130 if run.tier == "quick" else 400
+    for k in range(1 + run.shard[0], kmax + 1, run.shard[1]):
+        tr = SlidingWindowTracker(k)
+        vals = []
+        bad = None
+        for m in range(1, k + 4):
+            v = float((m * 37) % 11) + m / 7.0
+            vals.append(v)
+            tr.update(v)
+            mean, var = window_stats(vals, m, k)
+            run.ok(kind="k-n-sweep")
+            gm, gv = tr.mean, tr.var
+            if not (isinstance(gm, (float, np.floating)) and abs(float(gm) - mean) <= 1e-11 * max(1.0, abs(mean)) and abs(float(gv) - var) <= 1e-10 * max(1.0, var)):
+                bad = (m, gm, gv, mean, var)
+                break
+        if bad:
+            run.violation("window-mean" if not abs(float(bad[1]) - bad[3]) <= 1e-11 * max(1.0, abs(bad[3])) else "window-var",
+                          f"k={k} after {bad[0]} updates: mean/var {bad[1]!r}/{bad[2]!r}, last min(n,k) values give {bad[3]!r}/{bad[4]!r}",
+                          {"k": k, "updates": bad[0], "values": vals})
+        run.nontriv(("c11-kn", k))
     # ---- SlidingWindowTracker as the base of a MultiValueTracker: keys that appear late get their OWN empty window
     from ixai.utils.tracker import MultiValueTracker
     for rep in range(30 if run.tier == "quick" else 120):
